@@ -34,11 +34,64 @@ pub struct Interpreter {
     pub(crate) script_index: usize,
     pub(crate) state: State,
     pub(crate) tx_script: Option<TxScript>,
+    /// For every element of `script_bits`, its position in the script as written (conditionals written out
+    /// with their OP_IF, OP_ELSE and OP_ENDIF). Taken branches are spliced into `script_bits`, so the index
+    /// of an element there says nothing about where it sits in the script that a signature commits to.
+    #[serde(default)]
+    pub(crate) script_positions: Vec<usize>,
 }
 
 impl Interpreter {
+    /// Number of opcodes and pushes the elements occupy once conditionals are written out
+    pub(crate) fn written_len(bits: &[ScriptBit]) -> usize {
+        bits.iter()
+            .map(|bit| match bit {
+                ScriptBit::If { pass, fail, .. } => 2 + Interpreter::written_len(pass) + fail.as_ref().map_or(0, |f| 1 + Interpreter::written_len(f)),
+                _ => 1,
+            })
+            .sum()
+    }
+
+    /// Positions of consecutive elements, the first of which is written at `start`
+    pub(crate) fn written_positions(bits: &[ScriptBit], start: usize) -> Vec<usize> {
+        let mut next = start;
+        bits.iter()
+            .map(|bit| {
+                let position = next;
+                next += Interpreter::written_len(std::slice::from_ref(bit));
+                position
+            })
+            .collect()
+    }
+
+    /// The elements with every conditional written out as plain OP_IF .. OP_ELSE .. OP_ENDIF opcodes
+    pub(crate) fn written_out(bits: &[ScriptBit]) -> Vec<ScriptBit> {
+        let mut out = vec![];
+        for bit in bits {
+            match bit {
+                ScriptBit::If { code, pass, fail } => {
+                    out.push(ScriptBit::OpCode(*code));
+                    out.extend(Interpreter::written_out(pass));
+                    if let Some(fail) = fail {
+                        out.push(ScriptBit::OpCode(crate::OpCodes::OP_ELSE));
+                        out.extend(Interpreter::written_out(fail));
+                    }
+                    out.push(ScriptBit::OpCode(crate::OpCodes::OP_ENDIF));
+                }
+                other => out.push(other.clone()),
+            }
+        }
+        out
+    }
+
+    /// Position, in the script as written, of the element at `index` of `script_bits`
+    pub(crate) fn script_position(&self, index: usize) -> usize {
+        self.script_positions.get(index).cloned().unwrap_or(index)
+    }
+
     pub fn from_transaction_and_script_bits(tx: Transaction, txin: usize, script_bits: Vec<ScriptBit>) -> Interpreter {
         Interpreter {
+            script_positions: Interpreter::written_positions(&script_bits, 0),
             script_bits,
             script_index: 0,
             state: State::default(),
@@ -82,6 +135,7 @@ impl Interpreter {
 impl Interpreter {
     pub fn from_script(script: &Script) -> Interpreter {
         Interpreter {
+            script_positions: Interpreter::written_positions(&script.to_script_bits(), 0),
             script_bits: script.to_script_bits(),
             script_index: 0,
             state: State::default(),
